@@ -72,9 +72,3 @@ import PyYetiVerif.Props.C06g
 #print axioms PyYetiVerif.C06.convert_drm_response
 #print axioms PyYetiVerif.C06.convert_drm_roundtrip
 #print axioms PyYetiVerif.C06.conv_factors_inverse
-#print axioms PyYetiVerif.C06.cbPrepare_cases
-#print axioms PyYetiVerif.C06.cbFinish_cases
-#print axioms PyYetiVerif.C06.cbcheck_emfilt_empty_raises
-#print axioms PyYetiVerif.C06.cbPrepare_option_independence
-#print axioms PyYetiVerif.C06.cbFinish_ok
-#print axioms PyYetiVerif.C06.cbcheck_emfilt_independence
